@@ -9,6 +9,7 @@ K = {
     "C15": {
         "prefix": r"c15_",
         "thorough_only": r"_(ott|tto|oto|too|to|ot)$",
+        "jobs": 10,
         "functions": ["vm::VmGreenThread::step (arms AddInt SubtractInt MulInt DivideInt Modulo PowerInt and *Imm, BitXor, "
                       "WrappingAdd, WrappingMul, the integer comparisons)", "vm::VmGreenThread::load_offset_or_top",
                       "vm::VmGreenThread::store_offset_or_top", "assembly::Reg::encode", "vm::checked_pow_int"],
@@ -49,12 +50,12 @@ K = {
     },
     "C01": {
         "prefix": r"c01_",
-        "thorough_only": r"c01_(call_returnvoid_3|call_return_2|get_field_1_t|set_field_1_t|construct_struct_0|not_oo|reg_store_all_offsets|push_bool|push_addr)",
+        "thorough_only": r"c01_(call_returnvoid_3|call_return_2|get_field_1_t|set_field_1_t|construct_struct_0|not_oo|push_bool|push_addr)",
         "jobs": 12,
         "functions": ["vm::VmGreenThread::step (stack, constant, jump, call/return, struct/variant/closure arms, Not, EqualBool, string intrinsics)",
                       "vm::VmGreenThread::load_offset_or_top / store_offset_or_top", "assembly::Reg::encode", "vm::CallData"],
         "bounds": "one real step() (or a 2-step call/return pair) per harness from a 5-slot frame with symbolic payloads and the operand tags the "
-                  "compiler guarantees; a tag mismatch, underflow or Rust panic is a failed check. Register decoding: every 15-bit offset. "
+                  "compiler guarantees; a tag mismatch, underflow or Rust panic is a failed check. Register decoding: loads for every 15-bit offset (symbolic); stores for the concrete offsets of the arm harnesses (a store through a symbolic offset aborts CBMC at 20 GB, measured: not claimed). "
                   "Program-level faults (operand-stack discipline across instructions) are covered by the S part of ./check C02. "
                   "Outside: tasks at program level, FFI.",
         "assumptions": [],
